@@ -39,6 +39,10 @@ pub fn main() {
         println!("Definition G_DIST_FLAG_BITS : list N := [{}; {}; {}; {}].", rd::state::Distribution::FLAG_IS_DEBT_CALCULATION_FINALIZED_BIT,
             rd::state::Distribution::FLAG_IS_REWARDS_CALCULATION_FINALIZED_BIT, rd::state::Distribution::FLAG_HAS_SWEPT_2Z_TOKENS_BIT,
             rd::state::Distribution::FLAG_IS_SOLANA_VALIDATOR_DEBT_WRITE_OFF_ENABLED_BIT);
+        // [rd config paused; rd config migrated; contributor rewards-manager-blocked; passport paused; passport request-access paused]
+        println!("Definition G_STATE_FLAG_BITS : list N := [{}; {}; {}; {}; {}].", rd::state::ProgramConfig::FLAG_IS_PAUSED_BIT,
+            rd::state::ProgramConfig::FLAG_IS_MIGRATED_BIT, rd::state::ContributorRewards::FLAG_IS_SET_REWARDS_MANAGER_BLOCKED_BIT,
+            doublezero_passport::state::ProgramConfig::FLAG_IS_PAUSED_BIT, doublezero_passport::state::ProgramConfig::FLAG_IS_REQUEST_ACCESS_PAUSED_BIT);
     }
     crate::direct_wire::dump_constants();   // C19 (Wire.v): selectors, program ids, derived-enum tags
 }
